@@ -267,7 +267,8 @@ theorem checkNoInc_sound {fs : Asm.Files} {lines : List (List Char)} {chk : Asm.
     obtain ⟨hall, h⟩ := h
     have hni : ∀ s ∈ parsed, s.row.isInclude = false := by
       intro s hs; simpa using List.all_eq_true.mp hall s hs
-    simp only [expand_noinc fs 63 [] parsed hni]
+    have hx : Asm.expand fs (Asm.includeFuel fs) [] parsed = .ok parsed := expand_noinc fs fs.length [] parsed hni
+    simp only [hx]
     cases h1 : Asm.buildSymTab parsed 0 [] with
     | none => simp [h1] at h
     | some t =>
@@ -345,7 +346,8 @@ theorem orgRejectedNoInc_sound {fs : Asm.Files} {lines : List (List Char)}
     obtain ⟨hall, h⟩ := h
     have hni : ∀ s ∈ parsed, s.row.isInclude = false := by
       intro s hs; simpa using List.all_eq_true.mp hall s hs
-    simp only [expand_noinc fs 63 [] parsed hni]
+    have hx : Asm.expand fs (Asm.includeFuel fs) [] parsed = .ok parsed := expand_noinc fs fs.length [] parsed hni
+    simp only [hx]
     cases h1 : Asm.buildSymTab parsed 0 [] with
     | none => simp [h1] at h
     | some t =>
